@@ -302,6 +302,9 @@ def main(mod, tier, seed):
     t_start = time.time()
     prop = mod.PROP
     cases = mod.cases(tier, seed)
+    flt = os.environ.get('VERIF_CASE_FILTER')
+    if flt:   # development aid only
+        cases = [c for c in cases if flt in json.dumps(c, sort_keys=True, default=str)]
     nproc = int(os.environ.get('VERIF_JOBS', str(min(16, os.cpu_count() or 4))))
     results = []
     args = [(i, c, i == 0 or (i % 97 == 0)) for i, c in enumerate(cases)]
